@@ -49,10 +49,7 @@ class CaseEval:
         v = strip(v) if v is not None and v.kind != 'cast' else v
         if v is None or depth > 20:
             return None
-        if v.id in self.memo:
-            return self.memo[v.id]
         r = self._ev(v, depth)
-        self.memo[v.id] = r
         return r
 
     def _ev(self, v, depth):
@@ -166,7 +163,21 @@ class CaseEval:
                     return ('option', None)
             return None
         if k == 'phi':
-            return None       # resolved by the path walk
+            # resolved along the edges walked so far (the walk is deterministic under one search outcome)
+            from evalrel import resolve_phi
+            edges = getattr(self, 'edges', None)
+            if edges is None:
+                return None
+            ops = [x for x in resolve_phi(v, edges, {}) if x is not v]
+            vals = []
+            for x in ops:
+                r = self.ev(x, depth + 1)
+                if r == 'UNREACHABLE':
+                    continue
+                vals.append(r)
+            if vals and all(x == vals[0] for x in vals) and vals[0] is not None:
+                return vals[0]
+            return None
         return None
 
     def arith(self, op, x, y):
@@ -234,6 +245,7 @@ def walk_case(prog, fn, search, case, want_reads=False):
     ev = CaseEval(prog, fn, search, case)
     start = search.point[0]
     blocks, edges = set(), set()
+    ev.edges = edges
     stack = [start]
     undecided = []
     while stack:
@@ -246,17 +258,23 @@ def walk_case(prog, fn, search, case, want_reads=False):
         if t['k'] == 'switch' and x in b.switch_discr:
             d = b.switch_discr[x]
             dep = any(y is search for y in walk(d))
+            decided = False
             if dep:
                 val = ev.ev(d)
-                if val is None or val == 'UNREACHABLE':
-                    undecided.append((x, show(d, 3)))
-                else:
+                if val is not None and val != 'UNREACHABLE':
                     iv = int(val) if isinstance(val, bool) else val
                     chosen = t['otherwise']
                     for tv, tb in t['targets']:
                         if tv == iv:
                             chosen = tb
                     succs = [chosen]
+                    decided = True
+            if not decided:
+                ret_succs = [s2 for s2 in succs if s2 in b.cfg.can_return]
+                if len(ret_succs) < len(succs):
+                    succs = ret_succs          # an assertion (one side only panics): follow the side that returns
+                elif dep:
+                    undecided.append((x, show(d, 3)))
         if t['k'] == 'assert':
             succs = [t['target']]
         for s in succs:
